@@ -62,7 +62,7 @@ Inductive fkind :=
 | FkString | FkBool
 | FkInt (bits : N)            (* bit size the flag package parses with *)
 | FkUint (bits : N)
-| FkFloat (bits : N) | FkComplex | FkDuration
+| FkFloat (bits : N) | FkComplex (bits : N) | FkDuration
 | FkText (ptr_recv : bool)    (* MarshalWrapper around a TextUnmarshaler struct *)
 | FkIP                        (* MarshalWrapper around net.IP *)
 | FkStrSlice (native : bool)  (* flaghelper.StringSliceFlag / pflag's own StringSlice *)
@@ -81,7 +81,7 @@ Definition flag_kind (p : pkg) (t : ty) : option fkind :=
       | KString => Some FkString
       | KBool => Some FkBool
       | KFloat b => Some (FkFloat (match p with PStd => 64 | PPflag => b end))
-      | KComplex _ => Some FkComplex
+      | KComplex b => Some (FkComplex b)
       | KInt w => Some (FkInt (match p with PStd => 64 | PPflag => int_bits w end))
       | KUint w => Some (FkUint (match p with PStd => 64 | PPflag => if w =? 1 then 64 else int_bits w end))
       end
@@ -184,7 +184,8 @@ Definition flag_set (k : fkind) (st : fstate) (text : str) : outcome fstate :=
   | FkBool => b <- parse_bool text ;; upd (VBool b)
   | FkInt b => z <- parse_int b text ;; upd (VInt z)
   | FkUint b => n <- parse_uint b text ;; upd (VInt (Z.of_N n))
-  | FkFloat _ | FkComplex => Err e_unmodelled
+  | FkFloat b => z <- parse_float b text ;; upd (VFloat z)
+  | FkComplex b => v <- parse_complex b text ;; upd v
   | FkDuration => z <- parse_duration text ;; upd (VInt z)
   | FkText true => upd (VText text)
   | FkText false => upd (st_val st)
@@ -251,9 +252,8 @@ Definition canon_default (k : fkind) (v : val) : val :=
   | FkStrMap | FkStrSet => VMap (vmap_of v)
   | FkStrSliceMap =>            (* a key with an empty list has no "k:v" rendering (DESIGN finding 11) *)
       VMap (filter (fun kv => match snd kv with VList (_ :: _) => true | _ => false end) (vmap_of v))
-  | FkComplex => VOpaque 1      (* rendering of complex numbers, IPs and of a TextUnmarshaler without *)
-  | FkIP => VOpaque 2           (* MarshalText is not compared *)
-  | FkText false => VOpaque 3
+  | FkIP => VOpaque 2           (* rendering of IPs and of a TextUnmarshaler without MarshalText *)
+  | FkText false => VOpaque 3   (* is not compared *)
   | _ => v
   end.
 
@@ -308,6 +308,7 @@ Definition fits (e : ty) (v : val) : bool :=
   match e, v with
   | TBasic (KInt w) _, VInt z => in_int_range w z
   | TBasic (KUint w) _, VInt z => (0 <=? z)%Z && in_uint_range w (Z.to_N z)
+  | TBasic (KFloat b) _, VFloat z => (Z.abs z <? float_bound b * 1024)%Z    (* OverflowFloat *)
   | _, _ => true
   end.
 
@@ -315,7 +316,9 @@ Definition fits (e : ty) (v : val) : bool :=
    std: exact type, else willOverflow (flag.go:452-456), else Convert;
    pflag: the natively typed flag cannot hold an out-of-range value.
    A non-struct TextUnmarshaler (net.IP) is held by the field as it is; the
-   std source handles it since the fix for DESIGN finding 17. *)
+   std source handles it since the fix for DESIGN finding 17, and dereferences
+   the complex helpers' pointer for a declared complex leaf type since the fix
+   for named complex leaves. *)
 Definition write_leaf (p : pkg) (k : fkind) (lt : ty) (v : val) : outcome val :=
   match k with
   | FkStrSlice _ | FkIntSlice _ _ | FkStrMap | FkStrSet | FkStrSliceMap | FkIP => Ok v
@@ -333,6 +336,15 @@ Definition write_leaf (p : pkg) (k : fkind) (lt : ty) (v : val) : outcome val :=
 (* the pinned std source (before the fix): Convert from pointer-to-net.IP to net.IP panics *)
 Definition write_leaf_pre_fix (p : pkg) (k : fkind) (lt : ty) (v : val) : outcome val :=
   match p, k with PStd, FkIP => Panic 3 | _, _ => write_leaf p k lt v end.
+
+(* the std source before the second fix: the complex flag helpers hand out a
+   pointer (complex64 / complex128 behind it); for a leaf of a DECLARED complex
+   type that pointer was neither the field's type nor convertible to it *)
+Definition write_leaf_pre_fix2 (p : pkg) (k : fkind) (lt : ty) (v : val) : outcome val :=
+  match p, k, lt with
+  | PStd, FkComplex _, TPtr (TBasic _ name) => if predeclared name then write_leaf p k lt v else Panic 3
+  | _, _, _ => write_leaf p k lt v
+  end.
 
 Definition flag_value_with (wl : pkg -> fkind -> ty -> val -> outcome val)
     (p : pkg) (ne te : N) (fs : fields) (tmpl : list val) (occs : list (str * str))
